@@ -71,6 +71,12 @@ def r17a(ctx):
     # re-insertion only while overlapping
     adds = [c for c in walk_no_nested(f.node) if isinstance(c, ast.Call) and isinstance(c.func, ast.Attribute)
             and c.func.attr == "add" and dotted(c.func.value) == treev and c.lineno > w.lineno]
+    # a local closure that re-adds (defined inside make_distinct) counts once per call made after the refinement loop
+    closures = {d.name: d for d in ast.walk(f.node) if isinstance(d, ast.FunctionDef) and d is not f.node}
+    closure_adds = {nm: [c for c in ast.walk(d) if isinstance(c, ast.Call) and isinstance(c.func, ast.Attribute) and c.func.attr == "add"
+                         and dotted(c.func.value) == treev] for nm, d in closures.items()}
+    closure_calls = [c for c in walk_no_nested(f.node) if isinstance(c, ast.Call) and isinstance(c.func, ast.Name) and c.func.id in closures
+                     and closure_adds[c.func.id] and c.lineno > w.lineno]
     def only_overlap_guard(c):
         # the add must sit directly in `if tree.overlaps(<its own begin, end>):` with no further condition
         p_ = parent(c)
@@ -80,13 +86,14 @@ def r17a(ctx):
             return False
         t = p_.test
         return isinstance(t, ast.Call) and isinstance(t.func, ast.Attribute) and t.func.attr == "overlaps" \
-            and dotted(t.func.value) == treev and p_.lineno > w.lineno
-    ok = adds and all(only_overlap_guard(c) for c in adds)
-    if ok and len(adds) == 2:
-        ctx.proved("R17a", f.file, "make_distinct", adds[0], "re-insert only if overlapping",
+            and dotted(t.func.value) == treev and (p_.lineno > w.lineno or any(p_ in list(ast.walk(d)) for d in closures.values()))
+    all_adds = adds + [a for c in closure_calls for a in closure_adds[c.func.id]]
+    ok = all_adds and all(only_overlap_guard(c) for c in all_adds)
+    if ok and len(adds) + len(closure_calls) == 2:
+        ctx.proved("R17a", f.file, "make_distinct", all_adds[0], "re-insert only if overlapping",
                    "each refined interval goes back into the tree only if it still overlaps another interval")
     else:
-        ctx.violation("R17a", f.file, "make_distinct", (adds or [f.node])[0], "re-insert only if overlapping",
+        ctx.violation("R17a", f.file, "make_distinct", (all_adds or [f.node])[0], "re-insert only if overlapping",
                       "refined intervals are not (both) re-inserted exactly when they still overlap something: pairs can be "
                       "left overlapping, or the procedure may never finish")
     # end-exclusive interval encoding: Interval(lb, ub + 1)
@@ -98,12 +105,31 @@ def r17a(ctx):
             lo, hi = nrm(args[0]), nrm(args[1])
             if not (lo.endswith("lower_bound") and hi.endswith("upper_bound+1")):
                 bad.append(c)
+    # lookups use the same half-open encoding: tree[a:b] / tree.overlaps(a, b) / tree.overlap(a, b) take an Interval's own
+    # begin/end, or lower_bound and upper_bound + 1 - an inclusive Range used as the slice misses intervals that touch its end
+    for x in ast.walk(f.node):
+        lo = hi = None
+        if isinstance(x, ast.Subscript) and dotted(x.value) == treev and isinstance(x.slice, ast.Slice):
+            lo, hi = x.slice.lower, x.slice.upper
+        elif isinstance(x, ast.Call) and isinstance(x.func, ast.Attribute) and dotted(x.func.value) == treev \
+                and x.func.attr in ("overlaps", "overlap", "envelop") and len(x.args) == 2:
+            lo, hi = x.args
+        if lo is None or hi is None:
+            continue
+        lt, ht = nrm(lo), nrm(hi)
+        good = (lt.endswith(".begin") and ht.endswith(".end") and lt[:-6] == ht[:-4]) or (lt.endswith("lower_bound") and ht.endswith("upper_bound+1"))
+        if not good:
+            bad.append(x)
     if ivs and not bad:
-        ctx.proved("R17a", f.file, "make_distinct", ivs[0], "interval encoding", "closed ranges are stored as [lower, upper + 1) everywhere")
+        ctx.proved("R17a", f.file, "make_distinct", ivs[0], "interval encoding", "closed ranges are stored and looked up as [lower, upper + 1) everywhere")
     elif bad:
         ctx.violation("R17a", f.file, "make_distinct", bad[0], "interval encoding",
                       f"`{norm(bad[0], 70)}` does not encode the closed range as [lower_bound, upper_bound + 1): touching ranges "
                       f"are then missed (or zero-width intervals rejected)")
+
+
+def can_fall_off_end(fn):
+    return not terminates(fn.body)
 
 
 def r17b(ctx):
@@ -136,14 +162,37 @@ def r17b(ctx):
                               f"`return False` under {facts}: the search can report 'no progress' while candidates are still "
                               f"unread (e.g. when the first candidates are already single-valued), so it ends without a result "
                               f"or with a non-minimal one")
+    def exhausted_at(node, fn):
+        """Is `self._unprocessed is None` known at node (directly, or because a local obtained from a same-class helper is
+        not None and every non-None return of that helper is itself reached only when the iterator is exhausted)?"""
+        for t, pol in flatten_conditions(dominating_conditions(node)):
+            txt = nrm(t)
+            if (pol and txt == "self._unprocessedisNone") or (not pol and txt == "self._unprocessedisnotNone"):
+                return True
+            # `V is not None` (positive) or `V is None` (negative) for a local V = self.<helper>()
+            var = None
+            if isinstance(t, ast.Compare) and isinstance(t.left, ast.Name) and isinstance(t.comparators[0], ast.Constant) and t.comparators[0].value is None:
+                if (pol and isinstance(t.ops[0], ast.IsNot)) or (not pol and isinstance(t.ops[0], ast.Is)):
+                    var = t.left.id
+            if var:
+                for a in walk_no_nested(fn.node):
+                    if isinstance(a, ast.Assign) and isinstance(a.targets[0], ast.Name) and a.targets[0].id == var \
+                            and isinstance(a.value, ast.Call) and self_attr(a.value.func) and not a.value.args:
+                        h = m.method(q, self_attr(a.value.func))
+                        if h is not None and h.qual != fn.qual:
+                            rets = [r_ for r_ in walk_no_nested(h.node) if isinstance(r_, ast.Return)]
+                            if rets and all((r_.value is None or (isinstance(r_.value, ast.Constant) and r_.value.value is None)) or exhausted_at(r_, h)
+                                            for r_ in rets):
+                                return True
+        return False
+
     for name, want in (("best_match", "None"), ("remove_best", "None"), ("goal_test", "False")):
         f = m.method(q, name)
         first = next((s for s in f.node.body if isinstance(s, ast.If)), None)
-        ok = False
-        if first is not None:
-            t = nrm(first.test)
-            r = first.body[0] if first.body and isinstance(first.body[0], ast.Return) else None
-            ok = t.startswith("self._unprocessedisnotNone") and r is not None and ast.unparse(r.value) == want
+        rets = [r_ for r_ in walk_no_nested(f.node) if isinstance(r_, ast.Return)]
+        other = [r_ for r_ in rets if r_.value is None or ast.unparse(r_.value) != want]
+        ok = bool(rets) and all(exhausted_at(r_, f) for r_ in other if r_.value is not None) and not any(r_.value is None for r_ in other) \
+            and not can_fall_off_end(f.node)
         if ok:
             ctx.proved("R17b", fl, f"IterativeTighteningSearch.{name}", first, f"{name} while unprocessed",
                        f"answers {want} while the candidate iterator is not exhausted")
@@ -287,7 +336,8 @@ def r17e(ctx):
     for i in walk_no_nested(ub.node):
         if isinstance(i, ast.If) and "self.initial_bounds" in ast.unparse(i.test) and any(
                 isinstance(c, ast.Call) and isinstance(c.func, ast.Attribute) and c.func.attr == "_delete_node" for s_ in i.body for c in ast.walk(s_)):
-            for t in [i.test]:
+            disj = i.test.values if isinstance(i.test, ast.BoolOp) and isinstance(i.test.op, ast.Or) else [i.test]
+            for t in [d_ for d_ in disj if "self.initial_bounds" in ast.unparse(d_)]:
                 k += 1
                 txt = ast.unparse(t).replace(" ", "")
                 if ".dominates(" in txt or "<=" in txt or ">=" in txt:
